@@ -483,10 +483,11 @@ fn main() {
     let mut distinct: HashSet<String> = HashSet::new();
     let mut dist: BTreeMap<String, u64> = BTreeMap::new();
     let mut bump = |k: &str| { *dist.entry(k.to_string()).or_insert(0) += 1; };
-    let n_valid = if thorough { 2500 } else { 300 };
-    let n_malformed = if thorough { 500 } else { 60 };
+    let n_valid = if thorough { 2500 } else { 230 };
+    let n_malformed = if thorough { 500 } else { 50 };
     let mut samples: Vec<J> = vec![];
     let mut name_cases: Vec<(String, J)> = vec![];
+    let mut n_evals: u64 = 0;
     for i in 0..(n_valid + n_malformed) {
         let malformed = i >= n_valid;
         let b = build_schema(&mut rng, malformed);
@@ -517,6 +518,7 @@ fn main() {
                 name_cases.push((format!("NCapture {} {}", coq_list(&locals, |l| coq_str(l)), coq_list(&texts, |l| coq_str(l))),
                                  json!({"kind": "scalar-identifier-capture", "schema": b.text, "options": o.json(), "declared": locals, "scalar_texts": texts})));
             }
+            n_evals += 1;
             sruns.push(format!("({}, {})", o.coq(), term));
             sj.push(json!({"options": o.json(), "result": j}));
         }
@@ -533,6 +535,7 @@ fn main() {
             }
             bump(if j == json!("ok") { "resolver-run:ok" } else { "resolver-run:panic" });
             bump(&format!("resolver-run:plugins={plugins}"));
+            n_evals += 1;
             rruns.push(format!("({}, {}%nat, {})", o.coq(), plugins, term));
             rj.push(json!({"options": o.json(), "modelPlugins": plugins, "result": j}));
         }
@@ -565,6 +568,7 @@ fn main() {
         print_description(&d, &mut w);
         if d.contains("*/") { bump("jsdoc:contains-close"); }
         bump("jsdoc");
+        n_evals += 1;
         distinct.insert(format!("jsdoc|{d}"));
         batch.push((coq_str(&d), ops_coq(&w.coalesced())));
         batch_j.push(json!({"description": d, "text": w.text()}));
@@ -577,9 +581,9 @@ fn main() {
     cases.write(&args.out);
     if let Some(l) = cases.descr.last() { samples.push(l.clone()); }
     write_meta(&args.out, &json!({
-        "evaluations": cases.len(),
+        "evaluations": n_evals,
         "distinct_nontrivial": distinct.len(),
-        "rule": "one case = one generated schema (gen.rs, valid by construction, then renamed types colliding with TS identifiers, odd descriptions, deprecations, @model, @nitrogql_ts_type) printed by SchemaTypePrinter under 3 scalar configurations/options and by ResolverTypePrinter with 0 and 1-2 model plugins, or one description string through print_description; distinct = distinct schema texts / description strings; a malformed stream (dangling type references, missing scalar configuration, @model without type) exercises the error and panic paths",
+        "rule": "one evaluation = one run of a real printer (SchemaTypePrinter / ResolverTypePrinter on one schema under one configuration, or print_description on one string); one case = one generated schema (gen.rs, valid by construction, then renamed types colliding with TS identifiers, odd descriptions, deprecations, @model, @nitrogql_ts_type) printed by SchemaTypePrinter under 3 scalar configurations/options and by ResolverTypePrinter with 0 and 1-2 model plugins, or one description string through print_description; distinct = distinct schema texts / description strings; a malformed stream (dangling type references, missing scalar configuration, @model without type) exercises the error and panic paths",
         "samples": samples,
         "distribution": dist,
     }));
